@@ -437,23 +437,24 @@ pub async fn exec(app: &Arc<AppShareData>, op: &Value) -> Value {
                     Err(_) => Ok(json!({"res":"timeout"})),
                 }
             }
-            "ns_http_register" | "ns_http_deregister" => {
-                // what the HTTP instance handlers do: NamingRoute (the owner node of the service applies, the others sync)
-                use rnacos::naming::model::{Instance, InstanceUpdateTag};
-                let mut i = Instance { ip: Arc::new(op["ip"].as_str().unwrap().to_string()), port: op["port"].as_u64().unwrap() as u32,
-                    weight: op["weight"].as_f64().unwrap_or(1.0) as f32, enabled: op["enabled"].as_bool().unwrap_or(true), healthy: true, ephemeral: true,
-                    cluster_name: "DEFAULT".into(), service_name: Arc::new(op["service"].as_str().unwrap().to_string()),
-                    group_name: Arc::new("DEFAULT_GROUP".into()), namespace_id: Arc::new("public".to_string()), ..Default::default() };
-                i.generate_key();
-                let r = if name == "ns_http_register" {
-                    let tag = InstanceUpdateTag { weight: true, metadata: true, enabled: true, ephemeral: false, from_update: false };
-                    app.naming_route.update_instance(i, Some(tag)).await
-                } else {
-                    app.naming_route.delete_instance(i).await
+            "ns_http_register" | "ns_http_deregister" | "ns_http_beat" => {
+                // the REAL HTTP instance handlers of this node (/nacos/v1/ns/instance, /beat of the main application,
+                // in-process service): parameter parsing, the update tag the handler derives, NamingRoute (the owner node
+                // of the service applies, the others are synchronised)
+                use actix_web::{test, web, App};
+                let conf = std::ops::Deref::deref(&app.sys_config).clone();
+                let svc = test::init_service(App::new().app_data(web::Data::new(app.clone())).app_data(web::Data::new(app.config_addr.clone())).app_data(web::Data::new(app.naming_addr.clone())).app_data(web::Data::new(app.bi_stream_manage.clone())).configure(rnacos::web_config::app_config(conf))).await;
+                let q = format!("serviceName={}&ip={}&port={}", op["service"].as_str().unwrap_or(""), op["ip"].as_str().unwrap_or(""), op["port"].as_u64().unwrap_or(0));
+                let req = match name {
+                    "ns_http_register" => test::TestRequest::post().uri("/nacos/v1/ns/instance").insert_header(("Content-Type", "application/x-www-form-urlencoded"))
+                        .set_payload(format!("{}&weight={}&enabled={}&ephemeral=true", q, op["weight"].as_f64().unwrap_or(1.0), op["enabled"].as_bool().unwrap_or(true))),
+                    "ns_http_beat" => test::TestRequest::put().uri(&format!("/nacos/v1/ns/instance/beat?{}", q)),
+                    _ => test::TestRequest::delete().uri(&format!("/nacos/v1/ns/instance?{}&ephemeral=true", q)),
                 };
-                match r {
-                    Ok(_) => Ok(json!({"res":"ok"})),
-                    Err(e) => Ok(json!({"res":"error","err":e.to_string()})),
+                match tokio::time::timeout(std::time::Duration::from_millis(8000), crate::front::http(&svc, req.to_request())).await {
+                    Ok(a) if a.status == 200 => Ok(json!({"res":"ok"})),
+                    Ok(a) => Ok(json!({"res":"error","err":format!("{} {}", a.status, String::from_utf8_lossy(&a.body))})),
+                    Err(_) => Ok(json!({"res":"timeout"})),
                 }
             }
             "ns_dump" => {
@@ -656,6 +657,20 @@ impl NodeProc {
     }
 
     pub fn start_env(dir: &str, settle_ms: u64, envs: &[(&str, String)]) -> anyhow::Result<Self> {
+        // the start-up race of a node (a request reaches StateApplyManager before its dependencies are injected: the
+        // process answers "Mailbox has closed" and has served nothing) is not an outcome of any step: start the process again
+        let mut last = None;
+        for _ in 0..6 {
+            match Self::start_env_once(dir, settle_ms, envs) {
+                Ok(p) => return Ok(p),
+                Err(e) if e.to_string().contains("Mailbox has closed") => last = Some(e),
+                Err(e) => return Err(e),
+            }
+        }
+        Err(last.unwrap_or_else(|| anyhow::anyhow!("node boot failed")))
+    }
+
+    fn start_env_once(dir: &str, settle_ms: u64, envs: &[(&str, String)]) -> anyhow::Result<Self> {
         let exe = std::env::current_exe()?;
         let mut cmd = std::process::Command::new(exe);
         for (k, v) in envs {
@@ -673,6 +688,8 @@ impl NodeProc {
         let mut p = NodeProc { child, stdin, stdout };
         let first = p.read_line()?;
         if first["res"] != "booted" {
+            let _ = p.child.kill();
+            let _ = p.child.wait();
             return Err(anyhow::anyhow!("node boot failed: {}", first));
         }
         Ok(p)
